@@ -312,7 +312,7 @@ theorem finish_wf {pl : Plug π β} {head : Nat} {st st' : St β} {c : Nat} {cm 
   | plainMatch _ _ hm =>
     refine ⟨w.addRC _ hsel hfr ?_, by simp [Repo.addRC]⟩
     simp only [Hist.isMatch_of_get hcm, hm]
-  | skip bpar new pb _ _ hfn =>
+  | skip bpar new pb pbs bumps _ _ hfn =>
     have hs := findNew_spec w.rcPar hfn
     have w1 := w.setBpar hs (pb.foldl (fun m rb => setAll (buildNums cm (c == head)) rb m) br.bnMap)
     refine ⟨WF.addPlain w1 c fr hfr, ?_⟩
